@@ -186,7 +186,53 @@ def _observe_badclose(case):
                          "closes": src.closes, "consumed": src.i}}
 
 
+# ---- scoped_iter over REGULAR (synchronous) iterables: the scope owns the adapter the library builds around them ---------
+# Oracle-only: inside the block the handle behaves like a shared synchronous iterator, after the block it yields nothing,
+# and a one-shot synchronous iterator is not advanced beyond what was taken through the handle.
+
+
+def _syncsrc_cases():
+    for src in ("list", "range", "iter", "gen"):
+        for depth in (1, 2):
+            for taken in (0, 1, 2):
+                for mode in ("normal", "exc"):
+                    yield {"family": "syncsrc", "src": src, "depth": depth, "taken": taken, "mode": mode}
+
+
+def _observe_syncsrc(case):
+    from world import asyncstdlib, drive, exc_name
+    pulled = []
+
+    def gen():
+        for i in range(6):
+            pulled.append(i)
+            yield i
+    src = {"list": lambda: [0, 1, 2, 3, 4, 5], "range": lambda: range(6), "iter": lambda: iter([0, 1, 2, 3, 4, 5]), "gen": gen}[case["src"]]()
+    handles, got = [], []
+
+    async def block(depth):
+        async with asyncstdlib.scoped_iter(src if depth == 0 else handles[-1]) as it:
+            handles.append(it)
+            for _ in range(case["taken"]):
+                got.append(await it.__anext__())
+            if depth + 1 < case["depth"]:
+                await block(depth + 1)
+            elif case["mode"] == "exc":
+                raise world.UserExc(33)
+    res = drive(block(0))
+    after = []
+    for h in handles:
+        r = drive(h.__anext__())
+        after.append("stop" if isinstance(r.exc, StopAsyncIteration) else (["item", r.value] if r.exc is None else ["exc", exc_name(r.exc)]))
+    r = drive(asyncstdlib.list(asyncstdlib.islice(handles[0], 2)))
+    return {"syncsrc": {"exit": exc_name(res.exc), "got": got, "after": after,
+                        "tool_after": r.value if r.exc is None else ["exc", exc_name(r.exc)],
+                        "pulled": list(pulled) if case["src"] == "gen" else None}}
+
+
 def observe(case):
+    if case.get("family") == "syncsrc":
+        return _observe_syncsrc(case)
     if case.get("family") == "badclose":
         return _observe_badclose(case)
     obs = c07.observe(case)
@@ -199,6 +245,19 @@ def observe(case):
 
 
 def judge(case, obs, model):
+    if case.get("family") == "syncsrc":
+        b = obs["syncsrc"]
+        issues = []
+        n = case["depth"] * case["taken"]
+        if b["got"] != list(range(n)):
+            issues.append(Issue("oracle", b, "scoped-handle-over-sync-iterable-delivers-wrong-items"))
+        if any(a != "stop" for a in b["after"]) or b["tool_after"] not in ([], ["exc", ["lib", "StopAsyncIteration"]]):
+            issues.append(Issue("oracle", b, "scoped-handle-over-sync-iterable-yields-after-exit"))
+        if b["exit"] != (["user", 33] if case["mode"] == "exc" else None):
+            issues.append(Issue("oracle", b, "scope-over-sync-iterable-changes-the-block-outcome"))
+        if b["pulled"] is not None and b["pulled"] != list(range(n)):
+            issues.append(Issue("oracle", b, "sync-generator-advanced-beyond-what-was-taken"))
+        return issues
     if case.get("family") == "badclose":
         b = obs["badclose"]
         issues = []
@@ -366,6 +425,7 @@ def exceptional_cases(quick):
 
 def cases(tier, rng):
     quick = tier == "quick"
+    yield from _syncsrc_cases()
     for mode in ("raise", "suspend", "cancel"):
         for depth in (1, 2, 3):
             yield {"family": "badclose", "mode": mode, "depth": depth}
@@ -393,6 +453,8 @@ _c07_nontrivial = c07.nontrivial
 
 
 def model_request(case):  # noqa: F811
+    if case.get("family") == "syncsrc":
+        return None
     if case.get("family") == "badclose":
         # Machines/ScopeExit.lean: the nest of scopes left while the underlying aclose() raises / is cancelled / suspends
         return {"m": "scopeexit", "depth": case["depth"], "n": 6, "mode": case["mode"], "taken": 1}
@@ -400,12 +462,14 @@ def model_request(case):  # noqa: F811
 
 
 def features(case, obs):  # noqa: F811
+    if case.get("family") == "syncsrc":
+        return ["family=syncsrc", "src=" + case["src"], "mode=" + case["mode"]]
     if case.get("family") == "badclose":
         return ["family=badclose", "mode=" + case["mode"]]
     return _c07_features(case, obs)
 
 
 def nontrivial(case, obs):  # noqa: F811
-    if case.get("family") == "badclose":
+    if case.get("family") in ("badclose", "syncsrc"):
         return True
     return _c07_nontrivial(case, obs)
